@@ -1033,15 +1033,18 @@ class Oracle:
         if tid is None or (tid, p) not in st.broker:
             self.stats["dropped:no-broker-offset"] = self.stats.get("dropped:no-broker-offset", 0) + 1
             return
-        grp = st.groups.setdefault(g, {"last": 0, "lastmax": 0, "parts": {}})
+        grp = st.groups.setdefault(g, {"last": 0, "lastmax": 0, "lastall": 0, "parts": {}})
         lst = grp["parts"].setdefault((t, p), [])
         if any(x["order"] == order for x in lst):
             self.stats["dropped:replay"] = self.stats.get("dropped:replay", 0) + 1
             return
+        # the group's last-commit time since the C09 repair (inmemory.go addConsumerOffset): the LARGEST timestamp among the commits
+        # the ring stored, whichever partition or ring position they landed in.  A commit placed as the newest is certainly stored
+        # ("lastmax"); a backfill below the newest is stored unless the ring is full and it is not newer than the oldest entry,
+        # which this oracle does not track ("lastall" = as if every accepted commit was stored).  The true value lies between the
+        # two; expiry demands are made only where both readings agree.
+        grp["lastall"] = max(grp["lastall"], ts)
         if not lst or order > max(x["order"] for x in lst):
-            # the group's last-commit time: the timestamp of the commit placed as the newest.  Whether an OLDER timestamp may
-            # move it backwards is not an end-to-end matter (C09 / builder del: lastCommit := max): both readings are kept
-            # and the expiry demands below are made only where they agree
             grp["last"] = ts
             grp["lastmax"] = max(grp["lastmax"], ts)
         lst.append(dict(order=order, offset=off, ts=ts))
@@ -1058,7 +1061,7 @@ class Oracle:
         grp = st.groups.get(g)
         live = {k: v for k, v in (grp["parts"].items() if grp else []) if v}
         lim = (self.now - self.cf["expire"]) * 1000
-        expired = grp is not None and lim > grp["last"]
+        expired = grp is not None and lim > grp["lastall"]
         if grp is not None and expired != (lim > grp["lastmax"]):
             # the two readings of the last-commit time disagree: nothing about expiry is demanded of this answer; what the
             # implementation answered decides how the oracle goes on
@@ -1081,7 +1084,7 @@ class Oracle:
         if expired:
             if live and (full["found"] or filt["found"]):
                 fails.append("%s: the group's newest commit (timestamp %d) is older than expire-group at %d but a status was served"
-                             % (where, grp["last"], self.now))
+                             % (where, grp["lastall"], self.now))
             return fails
         if live and not full["found"]:
             fails.append("%s: the group has accepted commits (%s) but the evaluator answered NOTFOUND" %
@@ -1158,7 +1161,7 @@ class Oracle:
         for g, grp in self.cl[c].groups.items():
             live = any(v for v in grp["parts"].values())
             lim = (self.now - self.cf["expire"]) * 1000
-            if live and not lim > grp["last"] and not lim > grp["lastmax"] and g not in names:
+            if live and not lim > grp["lastmax"] and g not in names:
                 fails.append("%s: group %r has accepted commits but is not listed" % (where, g))
         self.stats["listings"] = self.stats.get("listings", 0) + 1
         return fails
